@@ -80,7 +80,16 @@ class _Copy:
 
     @staticmethod
     def copy(v: Any) -> Any:
-        return deepcopy_value(v)
+        # shallow: a new object sharing the attribute values (nested operand objects stay shared)
+        if isinstance(v, Obj):
+            o = Obj(v.cls)
+            o.attrs = dict(v.attrs)
+            return o
+        if isinstance(v, list):
+            return list(v)
+        if isinstance(v, dict):
+            return dict(v)
+        return v
 
 
 class IsaAbs:
